@@ -155,6 +155,9 @@ def gen_history(rng, g, R):
         prelude = "uses_all"            # (it would not be refused)
     if prelude == "noaction_remove" and has_user:
         prelude = "uses_query"
+    if rng.random() < 0.2:
+        # `remove(..., userInfo=self.uses())`: "if you're calling remove repeatedly, you can pass in a userInfo object"
+        return {"prelude": "uses_all_pass_info", "target": [D["name"], D["version"]], "newp": None, "had_user": has_user}
     explicit = rng.random() < 0.5 or "current" not in D.get("tags", [])
     newp = {"name": "hnew", "version": "1", "tags": ["current"],
             "deps": [{"k": rng.choice(["req", "req", "opt"]), "n": D["name"], "v": D["version"] if explicit else None, "j": rng.random() < 0.2}]}
@@ -175,7 +178,10 @@ def run_history(job):
         e = ecmd.createEups()
         pre = "ok"
         try:
-            if h["prelude"] == "uses_all":
+            info = None
+            if h["prelude"] == "uses_all_pass_info":
+                info = L.quietly(e.uses)
+            elif h["prelude"] == "uses_all":
                 L.quietly(e.uses)
             elif h["prelude"] == "uses_query":
                 L.quietly(e.uses, n, v)
@@ -191,15 +197,19 @@ def run_history(job):
             pre = L.err_class(ex)
         pre_changed = L.snapshot(s) != start
         np_ = h["newp"]
-        d = common.mkprod(s, np_["name"], np_["version"], L.table_text(np_["deps"]))
-        try:
-            L.quietly(e.declare, np_["name"], np_["version"], d)
-            dec = "ok"
-        except BaseException as ex:  # noqa
-            dec = L.err_class(ex)
+        dec = "ok"
+        if np_:
+            d = common.mkprod(s, np_["name"], np_["version"], L.table_text(np_["deps"]))
+            try:
+                L.quietly(e.declare, np_["name"], np_["version"], d)
+            except BaseException as ex:  # noqa
+                dec = L.err_class(ex)
         before, dbb, otherb = L.snapshot(s), L.db_listing(s), L.db_listing(s, others=True)
         try:
-            L.quietly(e.remove, n, v, False, True)
+            if h["prelude"] == "uses_all_pass_info":
+                L.quietly(e.remove, n, v, False, True, False, info)
+            else:
+                L.quietly(e.remove, n, v, False, True)
             out = "ok"
         except BaseException as ex:  # noqa
             out = L.err_class(ex)
@@ -215,15 +225,23 @@ def in_child_history(job):
     return r[1] if r[0] == "ok" else {"crash": r}
 
 
+def history_request(g, h):
+    rq = {"m": "c14", "graph": {"products": g["products"]}, "default": None,
+          "cases": [h["target"] + [False, True, False, [], False, "version"]]}
+    if h["newp"]:
+        rq["declare"] = h["newp"]
+    return rq
+
+
 def evaluate_histories(ctx, graphs):
     L.preimport()
     jobs = []
     for g in graphs:
-        g = {k: v for k, v in g.items() if k != "_setups"}
-        jobs.append((g, gen_history(ctx.rng, g, c13.Resolved(g))))
+        fixed = g.get("_history")
+        g = {k: v for k, v in g.items() if k not in ("_setups", "_history")}
+        jobs.append((g, fixed or gen_history(ctx.rng, g, c13.Resolved(g))))
     impl = parallel_map(in_child_history, jobs, workers=6)
-    answers = ctx.lean.ask_many([{"m": "c14", "graph": {"products": g["products"]}, "declare": h["newp"], "default": None,
-                                  "cases": [h["target"] + [False, True, False, [], False, "version"]]} for g, h in jobs])
+    answers = ctx.lean.ask_many([history_request(g, h) for g, h in jobs])
     for (g, h), io_, ans in zip(jobs, impl, answers):
         if "bad-op" in ans:
             raise common.InfraError("driver rejected a C14 history: %s" % ans["bad-op"])
@@ -244,7 +262,13 @@ def evaluate_histories(ctx, graphs):
             ctx.fail("never_still_needed", inp, ci, cm, note="the first removal of a product in use ended %s" % io_["pre"], finding=None)
         if io_["out"] != "ok" and io_["after"] != io_["before"]:
             ctx.fail("unchanged_unless_ok", inp, ci, cm, note="outcome %s but the stack changed" % io_["out"], finding=None)
-        if not unsetup_any:
+        if h["newp"] is None:
+            # the who-uses-what object handed to remove(): as the plain checked removal (the model's answer), never an error
+            if io_["out"].startswith("Other("):
+                ctx.fail("no_error", inp, ci, cm, note="remove(..., userInfo=uses()) raised %s" % io_["out"], finding=None)
+            if not unsetup_any and h["had_user"] and io_["out"] == "ok":
+                ctx.fail("never_still_needed", inp, ci, cm, note="removed although in use (userInfo passed in)", finding=None)
+        elif not unsetup_any:
             # hnew was declared with a table that requires the target: the checked, unforced removal must be refused
             if io_["out"] == "Refused":
                 ctx.hist("history:refused_after_declare")
@@ -508,6 +532,8 @@ def corpus_items():
                 with open(os.path.join(d, f)) as fh:
                     c = json.load(fh)
                 c["graph"]["shape"] = "corpus:" + f
+                if "history" in c:
+                    c["graph"]["_history"] = c["history"]
                 c["graph"]["_setups"] = [(su, False) for su in c.get("setups", [[]])] + [([], True)] * bool(c.get("readonly"))
                 out.append(c["graph"])
     return out
@@ -523,8 +549,12 @@ def run(ctx):
     big = ctx.tier == "thorough" or ctx.escalated
     cg = corpus_items()
     ctx.hist("corpus", len(cg))
+    ch = [g for g in cg if "_history" in g]
+    cg = [g for g in cg if "_history" not in g]
     if cg:
         evaluate(ctx, cg, all_cases=True)
+    if ch:
+        evaluate_histories(ctx, ch)
     # exhaustive small family (C13's, two candidate lines per table: 256 graphs), every target and flag combination
     total = c13.enum_count(2)
     ids = [(ctx.seed * 97 + k * 37) % total for k in range(6)]
@@ -570,8 +600,7 @@ def replay(ctx, rp):
     if "history" in inp:
         g, h = inp["graph"], inp["history"]
         io_ = in_child_history((g, h))
-        ans = ctx.lean.ask({"m": "c14", "graph": {"products": g["products"]}, "declare": h["newp"], "default": None,
-                            "cases": [h["target"] + [False, True, False, [], False, "version"]]})
+        ans = ctx.lean.ask(history_request(g, h))
         ci, cm = canon_impl(io_), canon_model(ans["answers"][0])
         fails = []
         unsetup_any = any(d["k"] in ("unreq", "unopt") for p in g["products"] for d in p["deps"])
@@ -579,7 +608,9 @@ def replay(ctx, rp):
             fails.append({"clause": "history_prelude_changes_nothing", "class": None, "detail": io_["pre"]})
         if io_["out"] != "ok" and io_["after"] != io_["before"]:
             fails.append({"clause": "unchanged_unless_ok", "class": None, "detail": io_["out"]})
-        if not unsetup_any and io_["out"] != "Refused":
+        if h["newp"] is None and io_["out"].startswith("Other("):
+            fails.append({"clause": "no_error", "class": None, "detail": "remove(..., userInfo=uses()) raised %s" % io_["out"]})
+        if h["newp"] and not unsetup_any and io_["out"] != "Refused":
             fails.append({"clause": "never_still_needed", "class": None, "detail": "removal after the declaration of a user ended %s" % io_["out"]})
         return {"input": inp, "impl_output": ci, "model_output": cm, "agree": ci == cm, "fails": fails}
     g, case = inp["graph"], inp["case"]
